@@ -92,8 +92,17 @@ func checkPruneTriple(p *load.Program, r *kit.Report, c *labelCtx) {
 				break
 			}
 			sl, ok := kit.Strip(s).(*ssa.Slice)
-			if !ok || sl.Low != nil || sl.High == nil || !lin.Of(sl.High).Equal(cnt) || !loadOfField(sl.X, c.headersF) {
-				bad = "heightsMap entries are not deleted for exactly headers[:count]"
+			if ok {
+				if sl.Low != nil || sl.High == nil || !lin.Of(sl.High).Equal(cnt) || !loadOfField(sl.X, c.headersF) {
+					bad = "heightsMap entries are not deleted for exactly headers[:count]"
+				}
+			} else {
+				// index loop: headers[i] for i = 0 … count-1
+				_, idx, _ := elemIndex(el)
+				lo, hi, okR := counterRange(f, lin, idx, w.Instr)
+				if !loadOfField(s, c.headersF) || !okR || !lo.Equal(kit.LinConst(0)) || !hi.Equal(cnt) {
+					bad = "heightsMap entries are not deleted for exactly headers[:count]"
+				}
 			}
 		case w.Kind == "store" && w.Field == c.headersF:
 			sawSlice = true
@@ -567,4 +576,55 @@ func checkRepoLocks(p *load.Program, r *kit.Report) {
 			r.Check(bad == "", "LOCKSET", name+"/holds-mutex", posOf(p, f.Blocks[0].Instrs[0]), fmt.Sprintf("%d accesses, all under repo.Lock()", len(acc)), bad)
 		}
 	}
+}
+
+// counterRange: idx is a loop counter (constant or invariant start, +1 per round) whose use at `at`
+// is dominated by the true edge of `idx < bound`: returns start and bound.
+func counterRange(f *ssa.Function, lin *kit.LinEval, idx ssa.Value, at ssa.Instruction) (lo, hi kit.Lin, ok bool) {
+	ph, isPhi := kit.Strip(idx).(*ssa.Phi)
+	if !isPhi {
+		return
+	}
+	var init ssa.Value
+	for _, e := range ph.Edges {
+		if b, isB := e.(*ssa.BinOp); isB && b.Op == token.ADD && b.X == ssa.Value(ph) {
+			if k, isC := kit.ConstInt(b.Y); isC && k == 1 {
+				continue
+			}
+			return
+		}
+		if init != nil && init != e {
+			return
+		}
+		init = e
+	}
+	if init == nil {
+		return
+	}
+	var bound ssa.Value
+	gs := kit.FindGuards(f, func(c ssa.Value) (bool, bool) {
+		b, isB := c.(*ssa.BinOp)
+		if !isB {
+			return false, false
+		}
+		switch {
+		case b.Op == token.LSS && b.X == ssa.Value(ph):
+			bound = b.Y
+			return true, true
+		case b.Op == token.GTR && b.Y == ssa.Value(ph):
+			bound = b.X
+			return true, true
+		case b.Op == token.GEQ && b.X == ssa.Value(ph):
+			bound = b.Y
+			return true, false
+		}
+		return false, false
+	})
+	if len(gs) != 1 || bound == nil {
+		return
+	}
+	if d, _ := kit.DominatedByEdges(f, at, []kit.Edge{gs[0].PassEdge()}, nil, func(token.Pos) string { return "" }); !d {
+		return
+	}
+	return lin.Of(init), lin.Of(bound), true
 }
